@@ -1348,12 +1348,14 @@ func (enc *VP8Encoder) EncodeFrame() ([]byte, error) {
 	if doSearch && maxPasses < 3 {
 		maxPasses = 3 // ensure enough passes for rate control convergence
 	}
-	// Use parallel encoding when:
-	// - Multiple CPU cores available (GOMAXPROCS > 1)
+	// Use the row-pipelined encoder when (independently of the number of CPUs:
+	// the serial and the pipelined encoder do not produce identical bytes, and
+	// Encode's output must depend only on img and opts; with one CPU the pipeline
+	// runs with a single row worker):
 	// - Enough rows for meaningful parallelism (mbH >= 4)
 	// - Method >= 3 (RD-based mode selection, which is the hot path)
 	// - Single-pass quality mode (no rate control iteration)
-	useParallel := runtime.GOMAXPROCS(0) > 1 && enc.mbH >= 4 && enc.config.Method >= 3 && !doSearch
+	useParallel := enc.mbH >= 4 && enc.config.Method >= 3 && !doSearch
 
 	var stats ProbaStats
 	for pass := 0; pass < maxPasses; pass++ {
